@@ -234,7 +234,7 @@ def gen(rng, tier):
                     yield from fl(f"nt_from_{fmt}", s + cfg, hx(f), t)
                     t, f = float_case(rng, fmt, W)
                     yield from fl(f"as_from_{fmt}", s + cfg, hx(f), t)
-                    t, a = int_case(rng, w, n, FMT[fmt][0])
+                    t, a = int_case(rng, w, n, fmt, s == "i")
                     yield from fl(f"nt_to_{fmt}", s + cfg, hx(a), t)
                     yield from fl(f"as_{fmt}", s + cfg, hx(a), t)
     yield from gen_as_big(rng, tier)
